@@ -11,15 +11,47 @@
        the compiled passage's content renders to the reference meaning of its lines.
      - for EVERY passage without @join markers the compiled content renders to the reference meaning of its
        lines up to deletion of newline characters from the shown text (state, jump, directives equal).
+   STRING LEVEL, proved (second half of this file; Story/SourcePrint.v, Proofs/SourcePrintProofs.v):
+     - the Gallina printer print_story (the twin of the .bard printer of harness/c01.py) and the parser MODEL
+       (Compiler/Parse*.v, parse_real = main loop + real block extractors): for every source story satisfying the
+       executable predicate `printable`,   parse_real (print_story s) = POk (compile_ref s)   - exactly, tags,
+       imports and metadata included (printed_story_parses_to_compile_ref); layer by layer: a printed content
+       line tokenizes to c_pieces; every printed line kind is classified and handled by the main loop as compile_ref
+       says; the main loop over a whole story for any extractors that do their part; the real extractors on
+       @py: bodies, `-> @join` choice blocks, @if/@elif/@else and @for at any indentation and nesting;
+     - the parser model's _cleanup_whitespace / _trim_trailing_newlines are the same functions as
+       Source.cleanup_ws / trim_trailing (whitespace_normalisations_agree);
+     - composition: what the parser model makes of the printed text plays with the reference meaning
+       (printed_source_plays_with_the_reference_meaning).
+     `printable` (Story/SourcePrint.v) asks: no printed line contains `/`, `^`, a newline or trailing white space;
+     literal text without braces (and without `|` inside an inline conditional), not adjacent to literal text, not
+     empty; {expr} code and inline conditions without braces and `?`; text lines not starting with white space or
+     one of # @ < - ~ + * : and not ending in "<>" unless glued; ~ code trimmed, not ending in an open bracket,
+     accepted by the oracle; targets valid passage names, argument strings without parentheses; choice text without
+     `]`, choice conditions without `}`, the choice line accepted by validate_choice_syntax; @render / @input / @hook
+     operands of the documented shapes; @py bodies with consistent indentation and no directive-like line; blocks
+     nested at most 100 deep, inline conditionals at most 50; section numbers of choices as the printer places them;
+     distinct valid passage names; parameters that are identifiers, no keyword, no duplicate, required before
+     optional, defaults trimmed and without comma or bracket; ss_start = None; and the two post passes of the
+     compiler (validate_passage_arguments with the oracle, _determine_initial_passage) accept compile_ref s.
+     Every generated AST of the runs so far satisfies it (counted on every run: ast_not_printable = 0 of 130 quick /
+     1300 thorough).
    PARTIAL (named so): WHICH newlines the two documented whitespace normalisations delete (a newline next to a
    block conditional collapses with a neighbouring newline; trailing newlines collapse to one) is specified on
    the token list (Source.cleanup_ws / trim_trailing follow validation.py) and is part of compile_ref; no
    source-level characterisation of that choice is proved; passages with @join sections are covered by C10.
    TIE (harness/c01.py, every run): generated source ASTs are printed as .bard text; the REAL compiler's dict must
    equal compile_ref of the AST (compared inside Coq), in memory and through compile-to-file + JSON load; the REAL
-   engine's play along random choice sequences must equal the model's play of compile_ref. *)
+   engine's play along random choice sequences must equal the model's play of compile_ref; print_story of the AST
+   must be, line by line, the Python printer's text (the text the real compiler is given, before comment
+   decoration); `printable` is evaluated with the call shapes of Python's own `ast`, and where it holds the parser
+   model on the printed lines must be compile_ref.  What the tie still carries for the string level: that the REAL
+   parser does on these texts what the parser model does (C11's correspondence) - here through real compiler =
+   compile_ref; comment decoration (C17); sources outside `printable`. *)
 From Coq Require Import String Ascii List Bool ZArith Arith.
 From Bardic Require Import PyStr Value Compiled Engine EngineBase Source Reference ReferenceProofs.
+From Bardic Require ParseBase ParseLine ParseMain ParseBlocks ParseBlocksInst ParseAllProofs SourcePrintProofs.
+From Bardic Require Import SourcePrint.
 Import ListNotations.
 Local Open Scope string_scope.
 
@@ -82,3 +114,247 @@ Definition demo_body2 : list item := filter (fun it => match it with IBlank => f
 Example demo_normalisation :
   top_content demo_body <> top_content_raw demo_body 0 /\ top_content demo_body2 = top_content_raw demo_body2 0.
 Proof. split; [vm_compute; discriminate|vm_compute; reflexivity]. Qed.
+
+(* ===================================================================================================== *)
+(* String level: the parser model on the printed text                                                    *)
+(* ===================================================================================================== *)
+Module SP := SourcePrintProofs.
+
+(* (i) a printed content line tokenizes to c_pieces: literal text, {expr}, {expr:spec}, inline conditionals
+   nested up to the compiler's own limit *)
+Theorem printed_content_line_tokenizes : forall inner ps,
+  pieces_ok inner ps = true -> clean (print_pieces ps) = true -> nest ps <= ParseLine.max_inline_depth ->
+  ParseLine.parse_content_line (print_pieces ps) = ParseBase.POk (c_pieces ps).
+Proof. exact SP.parse_content_line_pieces. Qed.
+Print Assumptions printed_content_line_tokenizes.
+
+(* (ii) one iteration of the main loop on each printed line kind, in any state inside a passage *)
+Theorem printed_text_line_step : forall pp xs lines i st cp ps glue,
+  SP.ready st cp -> text_line_ok ps glue = true ->
+  line_ok (print_pieces ps ++ (if glue then "<>" else "")) = true ->
+  ParseMain.parse_step pp xs lines i (print_pieces ps ++ (if glue then "<>" else "")) st =
+  ParseBase.POk (ParseMain.set_current st
+                   (ParseMain.with_content cp (c_pieces ps ++ (if glue then [] else [NL]))%list), S i).
+Proof. exact SP.step_text. Qed.
+Print Assumptions printed_text_line_step.
+
+Theorem printed_statement_line_step : forall pp xs lines i st cp c,
+  SP.ready st cp -> stmt_ok pp c = true -> line_ok ("~ " ++ c) = true ->
+  ParseMain.parse_step pp xs lines i ("~ " ++ c) st =
+  ParseBase.POk (ParseMain.set_current st (ParseMain.with_execute cp (TPyStmt c)), S i).
+Proof. exact SP.step_stmt. Qed.
+Print Assumptions printed_statement_line_step.
+
+Theorem printed_jump_line_step : forall pp xs lines i st cp t a,
+  SP.ready st cp -> ParseLine.valid_passage_pattern t = true -> paren_free a = true ->
+  line_ok ("-> " ++ t ++ print_args a) = true ->
+  ParseMain.parse_step pp xs lines i ("-> " ++ t ++ print_args a) st =
+  ParseBase.POk (ParseMain.set_current st (ParseMain.with_content cp [TJump t a]), S i).
+Proof. exact SP.step_jump. Qed.
+Print Assumptions printed_jump_line_step.
+
+Theorem printed_render_line_step : forall pp xs lines i st cp n a,
+  SP.ready st cp -> render_ok n a = true -> line_ok ("@render " ++ n ++ "(" ++ a ++ ")") = true ->
+  ParseMain.parse_step pp xs lines i ("@render " ++ n ++ "(" ++ a ++ ")") st =
+  ParseBase.POk (ParseMain.set_current st (ParseMain.with_content cp [TRender n a None]), S i).
+Proof. exact SP.step_render. Qed.
+Print Assumptions printed_render_line_step.
+
+Theorem printed_input_line_step : forall pp xs lines i st cp attrs,
+  SP.ready st cp -> input_ok attrs = true ->
+  line_ok ("@input name=" ++ String ParseLine.dquote (input_name attrs ++ String ParseLine.dquote "")) = true ->
+  ParseMain.parse_step pp xs lines i
+    ("@input name=" ++ String ParseLine.dquote (input_name attrs ++ String ParseLine.dquote "")) st =
+  ParseBase.POk (ParseMain.set_current st (ParseMain.with_input cp attrs), S i).
+Proof. exact SP.step_input. Qed.
+Print Assumptions printed_input_line_step.
+
+Theorem printed_hook_line_step : forall pp xs lines i st cp (add : bool) e t,
+  SP.ready st cp -> word_ok e = true -> word_ok t = true ->
+  line_ok ((if add then "@hook " else "@unhook ") ++ e ++ " " ++ t) = true ->
+  ParseMain.parse_step pp xs lines i ((if add then "@hook " else "@unhook ") ++ e ++ " " ++ t) st =
+  ParseBase.POk (ParseMain.set_current st (ParseMain.with_execute cp (THook add e t)), S i).
+Proof. exact SP.step_hook. Qed.
+Print Assumptions printed_hook_line_step.
+
+Theorem printed_join_marker_step : forall pp xs lines i st cp, SP.ready st cp ->
+  ParseMain.parse_step pp xs lines i "@join" st =
+  ParseBase.POk (ParseMain.set_current st
+                   (ParseMain.with_join (ParseMain.with_content cp [TJoinMarker (SP.jcount cp)])
+                                        (S (SP.jcount cp)) (S (SP.scount cp))), S i).
+Proof. exact SP.step_join. Qed.
+Print Assumptions printed_join_marker_step.
+
+(* a choice line with or without condition, with or without arguments, sticky or one-time *)
+Theorem printed_choice_line_step : forall pp xs lines i st cp tx tg ar cd stk,
+  SP.ready st cp -> choice_head_ok tx tg ar cd stk = true -> String.eqb tg "@join" = false ->
+  line_ok (choice_line tx tg ar cd stk) = true ->
+  ParseMain.parse_step pp xs lines i (choice_line tx tg ar cd stk) st =
+  ParseBase.POk (ParseMain.set_current st
+                   (ParseMain.with_choice (ParseMain.with_section cp (SP.scount cp))
+                      (Choice (c_pieces tx) tg ar cd stk (SP.scount cp) [] [])), S i).
+Proof. exact SP.step_choice_plain. Qed.
+Print Assumptions printed_choice_line_step.
+
+Theorem printed_header_line_step : forall pp xs lines i st name ps,
+  ParseMain.st_in_metadata st = false -> header_ok name ps = true -> line_ok (print_header name ps) = true ->
+  ParseMain.parse_step pp xs lines i (print_header name ps) st = ParseBase.POk (SP.header_state st name ps i, S i).
+Proof. exact SP.step_header. Qed.
+Print Assumptions printed_header_line_step.
+
+(* the two whitespace normalisations: the parser model's are Source.v's *)
+Theorem whitespace_normalisations_agree : forall l,
+  ParseMain.trim_trailing_newlines (ParseMain.cleanup_whitespace l) = trim_trailing (cleanup_ws l []).
+Proof. exact SP.normalisations_agree. Qed.
+Print Assumptions whitespace_normalisations_agree.
+
+(* (iii) the whole story through the main loop, for ANY block extractors that take the loop over the printed
+   lines of each item / choice with the effect compile_ref says (SP.item_steps / SP.choice_steps) *)
+Theorem printed_story_parses_for_any_good_extractors : forall pp is_call xs s,
+  printable pp is_call s = true ->
+  (forall p, In p (ss_passages s) -> SP.passage_steps pp xs p) ->
+  ParseMain.parse pp is_call xs (print_story s) = ParseBase.POk (compile_ref s).
+Proof. exact SP.parse_print_gen. Qed.
+Print Assumptions printed_story_parses_for_any_good_extractors.
+
+(* (iv) the real extractors on printed blocks *)
+Theorem printed_py_block_extracted : forall q c pre post, SP.pfx q -> py_ok c = true ->
+  ParseBlocks.extract_python_block_v true (pre ++ map (SP.indp q) (print_item (IPy c)) ++ post)%list (List.length pre) =
+  ParseBase.POk (c, List.length (print_item (IPy c))).
+Proof. exact SP.py_block_at. Qed.
+Print Assumptions printed_py_block_extracted.
+
+Theorem printed_join_choice_block_extracted : forall blk pre line post,
+  forallb join_item_ok blk = true -> SP.lines_ok (map indent_always (print_items blk)) -> SP.post_ok post ->
+  exists exec,
+    ParseBlocks.extract_join_choice_block ParseBlocksInst.real_linefns
+      (pre ++ (line :: map indent_always (print_items blk)) ++ post)%list (S (List.length pre)) 0 =
+    ParseBase.POk (c_items blk, exec, List.length (print_items blk)).
+Proof. exact SP.extract_join_print. Qed.
+Print Assumptions printed_join_choice_block_extracted.
+
+(* @if / @elif / @else and @for, at any indentation q, any nesting (fuel n, depth d below the cap of 100):
+   SP.block_spec it says that extract_conditional_block / extract_loop_block, started on the first line of the printed
+   item inside any surrounding lines, return the token of compile_ref and consume exactly the item's lines *)
+Theorem printed_blocks_extracted : forall pp it, SP.item_lines_ok pp it -> SP.block_spec it.
+Proof. exact SP.blocks_spec. Qed.
+Print Assumptions printed_blocks_extracted.
+
+(* stories without @if / @for (the layer reached first; a corollary of the next theorem as well) *)
+Theorem printed_flat_story_parses_to_compile_ref : forall pp is_call s,
+  printable pp is_call s = true -> SP.flat_story s = true ->
+  ParseAllProofs.parse_real pp is_call (print_story s) = ParseBase.POk (compile_ref s).
+Proof. exact SP.parse_print_flat. Qed.
+Print Assumptions printed_flat_story_parses_to_compile_ref.
+
+(* FULL: every printable story *)
+Theorem printed_story_parses_to_compile_ref : forall pp is_call s,
+  printable pp is_call s = true ->
+  ParseAllProofs.parse_real pp is_call (print_story s) = ParseBase.POk (compile_ref s).
+Proof. exact SP.parse_print_full. Qed.
+Print Assumptions printed_story_parses_to_compile_ref.
+
+(* composed with the first half of this file *)
+Theorem printed_source_plays_with_the_reference_meaning : forall pp is_call s,
+  printable pp is_call s = true ->
+  exists st, ParseAllProofs.parse_real pp is_call (print_story s) = ParseBase.POk st /\
+    initial st = initial_of s /\
+    forall p, In p (ss_passages s) ->
+      exists cp, In (sp_name p, cp) (passages st) /\
+        choices cp = map (fun sc => c_choice (fst sc) (snd sc)) (sp_choices p) /\
+        (forall orc ctxkeys s0, exec_commands orc ctxkeys (execute cp) s0 = sem_enter orc ctxkeys (sp_body p) s0) /\
+        (forall orc ctxkeys s0, forallb (fun it => negb (is_join it)) (sp_body p) = true ->
+           same_up_to_newlines (sem_items orc ctxkeys (filter shown_item (sp_body p)) s0)
+                               (render_content orc ctxkeys (content cp) s0)).
+Proof. exact SP.printed_story_reference_meaning. Qed.
+Print Assumptions printed_source_plays_with_the_reference_meaning.
+
+(* ---- non-vacuity ---- *)
+(* Python's parser on the argument strings of the examples *)
+Definition sp_demo_pp : ParseBase.pyparse :=
+  ParseBase.mkPyparse (fun _ => true)
+    (fun a => if String.eqb a "hp + 1" then Some (1, []) else if String.eqb a "2, bonus=hp" then Some (1, ["bonus"]) else None).
+
+(* several passages; an inline conditional, glue, a ~ statement, a parameterised passage with calls (a choice and
+   a jump), a conditional one-time choice, @render, @input, @hook, a blank line *)
+Definition sp_demo : sstory :=
+  mkSS None
+    [mkSP "Start" []
+       [IStmt "hp = 3"; IText [PText "HP "; PExpr "hp"] true; IText [PText "."] false; IBlank;
+        IText [PText "You feel "; PCond "hp > 1" [PText "strong "; PExpr "hp:>3"] [PText "weak"]; PText "."] false;
+        IRender "card" "hp, k=1"; IInput [("name", "player_name"); ("label", "Player Name"); ("placeholder", "")];
+        IHook true "turn_end" "Tick"]
+       [(0, SChoice [PText "Go on "; PExpr "hp"] "Cave" "hp + 1" (Some "hp > 0") false []);
+        (0, SChoice [PText "Wait"] "Start" "" None true [])];
+     mkSP "Cave" [mkParam "depth" None; mkParam "bonus" (Some "0")]
+       [IText [PText "Depth "; PExpr "depth"; PText "."] false; IJump "Deep" "2, bonus=hp"]
+       [(0, SChoice [PText "Back"] "Start" "" None true [])];
+     mkSP "Deep" [mkParam "depth" None; mkParam "bonus" (Some "depth + 1")]
+       [IText [PExpr "depth"; PText " and "; PExpr "bonus"] false]
+       [(0, SChoice [PText "Up"] "Start" "" None true [])];
+     mkSP "Tick" [] [IStmt "hp = hp - 1"] [(0, SChoice [PText "On"] "Start" "" None true [])]].
+
+Example sp_demo_printed :
+  print_story sp_demo =
+  [":: Start"; "~ hp = 3"; "HP {hp}<>"; "."; ""; "You feel {hp > 1 ? strong {hp:>3} | weak}.";
+   "@render card(hp, k=1)"; "@input name=""player_name"""; "@hook turn_end Tick";
+   "* {hp > 0} [Go on {hp}] -> Cave(hp + 1)"; "+ [Wait] -> Start";
+   ":: Cave(depth, bonus=0)"; "Depth {depth}."; "-> Deep(2, bonus=hp)"; "+ [Back] -> Start";
+   ":: Deep(depth, bonus=depth + 1)"; "{depth} and {bonus}"; "+ [Up] -> Start";
+   ":: Tick"; "~ hp = hp - 1"; "+ [On] -> Start"].
+Proof. vm_compute. reflexivity. Qed.
+
+Example sp_demo_printable : printable sp_demo_pp (fun _ => true) sp_demo = true.
+Proof. vm_compute. reflexivity. Qed.
+
+(* by evaluation ... *)
+Example sp_demo_parses :
+  ParseAllProofs.parse_real sp_demo_pp (fun _ => true) (print_story sp_demo) = ParseBase.POk (compile_ref sp_demo).
+Proof. vm_compute. reflexivity. Qed.
+(* ... and by the theorem *)
+Example sp_demo_parses_by_theorem :
+  ParseAllProofs.parse_real sp_demo_pp (fun _ => true) (print_story sp_demo) = ParseBase.POk (compile_ref sp_demo).
+Proof. apply printed_story_parses_to_compile_ref. exact sp_demo_printable. Qed.
+
+(* blocks: @if / @elif / @else with a nested @for, an @py: body, a choice inside a branch, a @join section with a
+   `-> @join` choice that has a block *)
+Definition sp_demo2 : sstory :=
+  mkSS None
+    [mkSP "Start" []
+       [IPy ("xs = [1, 2]" ++ String SourcePrint.nlc "hp = 3");
+        IIf [("hp > 2", [IText [PText "Strong"] true; IText [PText "!"] false; IStmt "hp = hp - 1";
+                         IFor "i" "xs" [IText [PText "item "; PExpr "i"] false; IBlank;
+                                        IIf [("i", [IJump "End" ""], [])]]
+                              [SChoice [PText "Take "; PExpr "i"] "End" "" None true []]],
+              [SChoice [PText "Rest"] "Start" "" (Some "hp") false []]);
+             ("hp == 2", [IBlank; IText [PText "Fine"] false], []);
+             ("True", [IText [PText "Weak"] false], [])];
+        IJoin; IText [PText "After"] false]
+       [(0, SChoice [PText "Look"] "@join" "" None true [IText [PText "You look."] false; IStmt "seen = 1"]);
+        (1, SChoice [PText "Leave"] "End" "" None true [])];
+     mkSP "End" [] [IText [PText "Bye"] false] [(0, SChoice [PText "Again"] "Start" "" None true [])]].
+
+Example sp_demo2_printed :
+  print_story sp_demo2 =
+  [":: Start"; "@py:"; "xs = [1, 2]"; "hp = 3"; "@endpy"; "@if hp > 2:"; "    Strong<>"; "    !"; "    ~ hp = hp - 1";
+   "    @for i in xs:"; "        item {i}"; ""; "        @if i:"; "            -> End"; "        @endif";
+   "        + [Take {i}] -> End"; "    @endfor"; "    * {hp} [Rest] -> Start"; "@elif hp == 2:"; ""; "    Fine";
+   "@else:"; "    Weak"; "@endif"; "+ [Look] -> @join"; "    You look."; "    ~ seen = 1"; "@join"; "After";
+   "+ [Leave] -> End"; ":: End"; "Bye"; "+ [Again] -> Start"].
+Proof. vm_compute. reflexivity. Qed.
+
+Example sp_demo2_printable : printable sp_demo_pp (fun _ => true) sp_demo2 = true.
+Proof. vm_compute. reflexivity. Qed.
+
+Example sp_demo2_parses :
+  ParseAllProofs.parse_real sp_demo_pp (fun _ => true) (print_story sp_demo2) = ParseBase.POk (compile_ref sp_demo2).
+Proof. vm_compute. reflexivity. Qed.
+
+(* the predicate is not trivially true: literal text with a brace, a text line that looks like a directive, a call
+   the oracle rejects *)
+Example sp_not_printable :
+  printable sp_demo_pp (fun _ => true) (mkSS None [mkSP "Start" [] [IText [PText "a{b"] false] []]) = false /\
+  printable sp_demo_pp (fun _ => true) (mkSS None [mkSP "Start" [] [IText [PText "@if x:"] false] []]) = false /\
+  printable sp_demo_pp (fun _ => true)
+    (mkSS None [mkSP "Start" [] [] [(0, SChoice [PText "Go"] "P" "1 +" None true [])]; mkSP "P" [mkParam "x" None] [] []]) = false.
+Proof. vm_compute. repeat split. Qed.
